@@ -10,17 +10,17 @@ PLAN = {
                             'small-scope enumeration against brute-force maximum matching (bounded stand-in, the property\'s own quantifier: all graphs up to 4x5) and are '
                             'NOT counted as proved. Discharged deductively: the circular-distance tolerance predicate, and - in the evidence of C01/C04/C06/C07/C08 - every '
                             'caller against the matcher contract "valid maximum matching of the stated predicate".'),
-    'C06': dict(level='proof', engines=['forward', 'segnative', 'tasknative', 'matchnative']),
+    'C06': dict(level='proof', engines=['forward', 'segnative', 'tasknative', 'matchnative', 'chordevalnative']),
     'C07': dict(level='proof', engines=['tasknative', 'matchnative', 'beatstruct', 'multipitchnative']),
-    'C08': dict(level='proof', engines=['segnative', 'tasknative', 'multipitchnative', 'matchnative']),
-    'C09': dict(level='proof', engines=['chordnative', 'keynative', 'tasknative']),
+    'C08': dict(level='proof', engines=['segnative', 'tasknative', 'multipitchnative', 'matchnative', 'chordevalnative']),
+    'C09': dict(level='proof', engines=['chordnative', 'keynative', 'tasknative', 'chordevalnative']),
     'C10': dict(level='proof', engines=['chordre']),
     'C11': dict(level='proof', engines=['chordnative']),
     'C12': dict(level='proof', engines=['sumlib', 'segnative', 'hiernative', 'chordevalnative']),
     'C13': dict(level='proof', engines=['intervalsnative']),
     'C14': dict(level='proof', engines=['tasknative']),
     'C16': dict(level='proof', engines=['forward', 'segnative']),
-    'C17': dict(level='proof', engines=['hiernative']),
+    'C17': dict(level='proof', engines=['hiernative', 'bundles']),
     'C18': dict(level='proof', engines=['sumlib', 'multipitchnative', 'matchnative']),
     'C19': dict(level='proof', engines=['sepstruct', 'bundles']),
     'C20': dict(level='proof', engines=['ionative']),
